@@ -22,6 +22,8 @@ R04.i  no for-loop variable of these modules is read after its loop (a statement
        left one indentation level too shallow sees only the last element).
 R04.j  no str-Enum value (FeatureType, ...Type) is tested by identity: plain strings
        are accepted for these enums and are equal, not identical, to the member.
+R04.k  no closure created in a loop of these modules keeps the loop variable by
+       reference (late binding) - every kept closure would see the last value.
 """
 
 from __future__ import annotations
@@ -52,6 +54,7 @@ MANIFEST = {
         " Also decided: no function of these modules accumulates into a mutable default argument."
         " Also decided: no for-loop variable of these modules is read after its loop (statement left one indentation level too shallow)."
         " Also decided: no str-Enum value is tested by identity (plain strings are accepted for these enums)."
+        " Also decided: no closure created in a loop keeps the loop variable by reference (late binding)."
     ),
     "note": "Criterion idioms recognised: min/max(xs, key=...), sorted(xs, key=...)[0], negated keys; accumulation tables built by a loop over a dispatcher query. Other shapes are ANALYSIS-ERROR.",
     "technique": "abstract interpretation (element-of domain) + criterion table matching + def-use order of clock reads + registry table check",
@@ -375,6 +378,10 @@ def solver(ctx):
     disp = repo.find_class("Dispatcher")
     dispatch = repo.need_method(disp, "dispatch")
     eng = ctx.engine(relevant=lambda e: e.kind == "call" and dispatch in (e.data.get("targets") or []), max_depth=0)
+    step_raw = step
+    if not any(isinstance(n, ast.Call) and "dispatching_rule" in ast.unparse(n.func) for n in own_nodes(step.node)):
+        # the selection may be delegated (a new select() step, a private helper)
+        step = ctx.norm.flat(step, depth=3)
     for p in eng.paths(step, cls):
         if p.outcome == "raise":
             continue
@@ -388,10 +395,15 @@ def solver(ctx):
 
         def src(name):
             d = defs.of(name)
+            if d and step is not step_raw:
+                try:
+                    return ctx.norm.xtext(step, ast.parse(name, mode="eval").body if not isinstance(name, ast.AST) else name)
+                except Exception:
+                    pass
             return ast.unparse(d[-1][1]) if d else name
 
-        a0 = src(args[0]) if args else ""
-        a1 = src(args[1]) if len(args) > 1 else ""
+        a0 = (ctx.norm.xtext(step, call.args[0]) if step is not step_raw else src(args[0])) if call.args else ""
+        a1 = (ctx.norm.xtext(step, call.args[1]) if step is not step_raw and len(call.args) > 1 else (src(args[1]) if len(args) > 1 else ""))
         if "self.dispatching_rule(" not in a0:
             chk.violation("R04.d", step, call, f"step dispatches `{a0}`, not the operation selected by the dispatching rule", loc=step.loc(call))
         elif "self.machine_chooser(" not in a1:
@@ -399,7 +411,12 @@ def solver(ctx):
         else:
             # the chooser must be asked about the selected operation
             mc = defs.of(args[1])[-1][1] if defs.of(args[1]) else None
-            if isinstance(mc, ast.Call) and len(mc.args) >= 2 and ast.unparse(mc.args[1]) == args[0]:
+            if step is not step_raw and len(call.args) > 1:
+                mc = ctx.norm.xexpr(step, call.args[1])
+                same = isinstance(mc, ast.Call) and len(mc.args) >= 2 and ast.unparse(mc.args[1]) == a0
+            else:
+                same = isinstance(mc, ast.Call) and len(mc.args) >= 2 and ast.unparse(mc.args[1]) == args[0]
+            if same:
                 chk.ok("R04.d", step.qualname, step.loc(call), "dispatch(rule(dispatcher), chooser(dispatcher, operation)) once")
             else:
                 chk.violation("R04.d", step, call, "the machine chooser is not asked about the selected operation", loc=step.loc(call))
@@ -516,6 +533,18 @@ def _clock_order(fi, name_or_expr, defs):
 def _elapsed(ctx, fi, v):
     chk = ctx.chk
     defs = ctx.flow.defs(fi)
+    # follow plain renamings of the difference (`a, b = (x, y)`, `z = y`) one
+    # name at a time - the operands must stay names, their order is what counts
+    for _ in range(4):
+        if isinstance(v, ast.BinOp) or not isinstance(v, ast.Name):
+            break
+        ds = [d for d in defs.of(v.id) if d[0] in ("value", "unpack") and d[1] is not None]
+        if len(ds) != 1:
+            break
+        nv = ds[0][1]
+        if isinstance(nv, ast.Subscript) and isinstance(nv.value, ast.Tuple) and isinstance(nv.slice, ast.Constant) and isinstance(nv.slice.value, int):
+            nv = nv.value.elts[nv.slice.value]
+        v = nv
     if not (isinstance(v, ast.BinOp) and isinstance(v.op, ast.Sub)):
         raise AnalysisError(f"{fi.qualname}: elapsed_time expression not recognised ({ast.unparse(v)[:50]})")
     a, b = _clock_order(fi, v.left, defs), _clock_order(fi, v.right, defs)
@@ -603,6 +632,27 @@ def registries(ctx):
             chk.violation("R04.f", mfac, mnode, f"MachineChooserType.{m} has no entry in the registry", loc=mfac.loc(mnode))
             continue
         lam = mreg[m]
+        if isinstance(lam, ast.Name):
+            # a named chooser function: every value it returns must be an
+            # element of <operation>.machines (origin analysis over its body)
+            g = mfac.module.functions.get(lam.id)
+            if g is None:
+                q = repo.resolve(mfac.module.name, lam.id)
+                g = repo.functions.get(q) if q else None
+            if g is not None and not isinstance(g.node, ast.Lambda) and len(g.params) == 2:
+                opn = g.params[1]
+                rets = [r for r in own_nodes(g.node) if isinstance(r, ast.Return) and r.value is not None]
+                verdicts = []
+                for r in rets:
+                    for o in ctx.flow.origins(g, r.value, None):
+                        core = o
+                        while core[0] == "elem" and core[1][0] == "elem":
+                            core = core[1]
+                        verdicts.append(core[0] == "elem" and core[1][0] == "attr" and core[1][1] == opn and tuple(core[1][2]) == ("machines",))
+                if rets and verdicts and all(verdicts):
+                    chk.ok("R04.f", mfac.qualname, mfac.loc(lam), f"{m}: {g.name} returns elements of operation.machines only")
+                    continue
+                raise AnalysisError(f"machine chooser {m}: {g.name} - whether it always returns an element of operation.machines is not decided")
         if not isinstance(lam, ast.Lambda) or len(lam.args.args) != 2:
             raise AnalysisError(f"machine chooser {m}: not a two-argument lambda")
         op = lam.args.args[1].arg
@@ -704,6 +754,9 @@ def purity(ctx):
 
 def run(ctx):
     chk, repo = ctx.chk, ctx.repo
+    from .common import check_late_binding
+
+    check_late_binding(ctx, "R04.k", ("job_shop_lib.dispatching.rules",), "the rule")
     from .common import check_str_enum_identity
 
     check_str_enum_identity(ctx, "R04.j", ("job_shop_lib.dispatching.rules",), "the rule")
@@ -763,12 +816,12 @@ def run(ctx):
             provenance(ctx, f, what="rule-shaped function outside the registry: element of available_operations()")
             n += 1
     chk.floor("R04.a", n, 6, "rules")
-    tie_breaker(ctx)
+    ctx.attempt(tie_breaker, ctx)
     nc = one_shot_captures(
         ctx, "R04.c", lambda f: f.module.name.startswith("job_shop_lib.dispatching.rules"),
         "from its second call on the rule applies none of its scoring functions",
     )
     chk.analysed["rule_closures_inspected"] = nc
-    solver(ctx)
-    metadata(ctx)
-    purity(ctx)
+    ctx.attempt(solver, ctx)
+    ctx.attempt(metadata, ctx)
+    ctx.attempt(purity, ctx)
